@@ -75,6 +75,12 @@ def render_args(I, ctx, fa, sink):
         elif b == 0xC0:
             a = args[nxt]; nxt += 1; i += 1
             if a.fields[0] != 'display' or not display_into(I, ctx, sink, a.fields[2], a.fields[1]): ok = False
+        elif b == 0xC8:
+            # placeholder with an explicit argument index (an argument that is used twice)
+            k = t[i + 1] | (t[i + 2] << 8); i += 3
+            if k >= len(args): return False
+            a = args[k]
+            if a.fields[0] != 'display' or not display_into(I, ctx, sink, a.fields[2], a.fields[1]): ok = False
         else:
             return False
     return ok
@@ -1364,3 +1370,7 @@ def _(I, ctx, s, c):
 def _(I, ctx, arr, f):
     crate = ctx.cur_crate
     return [I.call_value(ctx, crate, f, [x]) for x in seq_items(arr)]
+
+
+@model('re:^<Vec<u8> as From<&(mut )?str>>::from$', 're:^<Vec<u8> as From<(std::string::)?String>>::from$')
+def _(I, ctx, s): return VecV(list(str_bytes(s)))
